@@ -141,13 +141,43 @@ pub fn in_fresh_thread<T: Send + 'static>(
 ) -> Result<T, String> {
     seams::hash_seed(hash_seed);
     let h = std::thread::Builder::new()
-        .stack_size(16 << 20)
+        .stack_size(8 << 20)
         .spawn(f)
         .expect("spawn");
     h.join().map_err(|p| {
         let loc = crate::LAST_PANIC.lock().map(|g| g.clone()).unwrap_or_default();
         if loc.is_empty() { panic_text(p) } else { loc }
     })
+}
+
+/// The library echoes every child's stdout/stderr to the process's own (runlib.rs); keep that off
+/// the harness's output while a library call runs.
+pub fn silenced<T>(f: impl FnOnce() -> T) -> T {
+    unsafe {
+        use std::io::Write;
+        let _ = std::io::stdout().flush();
+        let null = libc::open(b"/dev/null\0".as_ptr() as *const libc::c_char, libc::O_WRONLY);
+        let o1 = libc::dup(1);
+        let o2 = libc::dup(2);
+        if null >= 0 {
+            libc::dup2(null, 1);
+            libc::dup2(null, 2);
+        }
+        let r = f();
+        let _ = std::io::stdout().flush();
+        if o1 >= 0 {
+            libc::dup2(o1, 1);
+            libc::close(o1);
+        }
+        if o2 >= 0 {
+            libc::dup2(o2, 2);
+            libc::close(o2);
+        }
+        if null >= 0 {
+            libc::close(null);
+        }
+        r
+    }
 }
 
 pub struct VerifyCall<'a> {
@@ -175,7 +205,7 @@ pub fn verify(call: &VerifyCall) -> CallResult {
     let link_dir = call.link_dir.to_string_lossy().to_string();
     std::env::set_current_dir(call.cwd).expect("chdir work");
     seams::clock_arm(call.clock);
-    let r = in_fresh_thread(call.hash_seed, move || -> Result<Result<Value, (String, String)>, String> {
+    let r = silenced(|| in_fresh_thread(call.hash_seed, move || -> Result<Result<Value, (String, String)>, String> {
         let mb: Metablock = match serde_json::from_str(&text) {
             Ok(m) => m,
             Err(e) => return Err(format!("{e}")),
@@ -199,7 +229,7 @@ pub fn verify(call: &VerifyCall) -> CallResult {
             }
             Err(e) => Ok(Err((err_class(&e), format!("{}", e)))),
         }
-    });
+    }));
     let clock_reads = seams::clock_disarm();
     let hash_draws = seams::hash_draws();
     let mk = |ok, class: &str, msg: &str, panic: Option<String>, summary| Verdict {
